@@ -66,13 +66,14 @@ def run(ctx):
             pj = load_jsonl(os.path.join(ctx.work, "pcases.jsonl"))
             aj = load_jsonl(os.path.join(ctx.work, "acases.jsonl"))
             ej = load_jsonl(os.path.join(ctx.work, "ecases.jsonl"))
+            lj = load_jsonl(os.path.join(ctx.work, "lcases.jsonl"))
             if meta.get("e2e_error"):
                 ob_failed.append("end-to-end run failed: " + meta["e2e_error"])
             for shard in meta["shards"]:
                 r = res.get(shard) or {}
                 kind, idx = shard.split("_")[0], int(shard.split("_")[1].split(".")[0])
                 base = idx * meta["shard_size"]
-                src = {"pcases": pj, "acases": aj, "ecases": ej}[kind]
+                src = {"pcases": pj, "acases": aj, "ecases": ej, "lcases": lj}[kind]
                 for ident, acc in (("M", model_bad), ("P", prop_bad)):
                     for i in (ctx.parse_nlist(r.get(ident)) or []):
                         case = src[base + i] if base + i < len(src) else {"index": base + i}
@@ -85,13 +86,13 @@ def run(ctx):
         kind, case = kc
         d = dict(case)
         d["case_kind"] = d.get("kind")
-        d["kind"] = {"pcases": "parser", "acases": "applier", "ecases": "e2e"}[kind]
+        d["kind"] = {"pcases": "parser", "acases": "applier", "ecases": "e2e", "lcases": "rule-list"}[kind]
         return d
 
     # 5. decide (DESIGN.md 2.2)
     # end-to-end cases are keyed by message kind (call site), so a known finding on one
     # kind does not hide a violation on another
-    streams = [("pcases", "parser", None), ("acases", "applier", None)]
+    streams = [("pcases", "parser", None), ("acases", "applier", None), ("lcases", "rule-list", None)]
     streams += [("ecases", "e2e-" + k, k) for k in ("ReqPlain", "ReqConnect", "RespPlain", "RespConnect")]
     for kind, label, sub in streams:
         pb = [kc for kc in prop_bad if kc[0] == kind and (sub is None or kc[1].get("kind") == sub)]
@@ -126,7 +127,7 @@ def run(ctx):
                           False,
                           "%d cases where model and implementation differ although the property predicate holds; smallest: %s"
                           % (len(mb), json.dumps(kc[1])[:300]))
-    if ob_failed and not ctx.violations and not ctx.known_hits:
+    if ob_failed and not ctx.violations:
         ctx.violation("obligation-unchecked", dict(unchecked=ob_failed), False, ob_failed[0][:300])
     elif ob_failed:
         ctx.notes.append({"unchecked_obligations": ob_failed})
